@@ -1,6 +1,7 @@
 SPECIFICATION Spec
 CONSTANTS
   BloomIds = {"r1", "r2", "blk"}
+  Block = "blk"
   AddrIds = {"a1", "a2"}
   ValIds = {"x", "y", "e"}
   MaxPos = 2
